@@ -89,6 +89,8 @@ var PatternTemplates = []string{
 	"/track", "/track/*.gif", "pixel.gif|", "ads_banner", "ads%20", "/ads.", "/ad_s.", "/a*s.", "js", "a", "/x?ads=1", "/HOST.", "/price\\$tag", "||HOST/cart\\$total^", "ads\\$", "\\$ads", "||HOST/a|b", "/ads/track.gif?a|b", "a.b|c", "/x.y.z|ads",
 	// Runs of wildcards and wildcards next to other operators.
 	"/bännér", "реклама", "||HOST/реклама^", "İstanbul", "||HOST/**", "/ads/***", "||HOST^**", "ads**banner", "**ads", "||HOST/*/*", "*/ads/*", "|*ads", "ads*|", "^*^", "/banner**|",
+	// Three and more literal runs of different lengths in every order.
+	"||HOST^ad*/banner_long", "||HOST^*/ads/*/banner.js", "/adserver/*/show^*&zone=", "/a*bcd*efghijk", "/abcdefg*hi*jklm", "ab*cdefgh*ij^klmno", "||HOST^x*yz*banner.gif|", "/ads/*^x*track_pixel_long",
 }
 
 // ClientNames are $client names with their textual forms.
@@ -157,7 +159,7 @@ var RequestClientNames = []string{
 var CTagValues = []string{"device_pc", "device_phone", "user_child", "user_admin", "os_linux", "a", "b", "z_last", "0first"}
 
 // DNSTypeNames are record type names with their numbers.
-var DNSTypeNames = map[string]uint16{"A": 1, "AAAA": 28, "CNAME": 5, "MX": 15, "TXT": 16, "HTTPS": 65, "PTR": 12, "SRV": 33}
+var DNSTypeNames = map[string]uint16{"A": 1, "AAAA": 28, "CNAME": 5, "MX": 15, "TXT": 16, "HTTPS": 65, "PTR": 12, "SRV": 33, "SVCB": 64, "NS": 2, "CAA": 257, "ANY": 255, "DS": 43, "TLSA": 52}
 
 // DNSTypeList is the sorted list of DNSTypeNames keys.
 var DNSTypeList = func() []string {
